@@ -125,6 +125,9 @@ def run_probe(lifted, scratch):
         dis = ("panicked" in p.stderr) and not exp["panic"]
     if "stdout_contains" in exp:
         dis = dis or (exp["stdout_contains"] not in p.stdout)
+    if "stdout_matches" in exp:      # a regular expression (DOTALL) the output must match somewhere
+        import re as _re
+        dis = dis or (_re.search(exp["stdout_matches"], p.stdout, _re.S) is None)
     if "stdout_lacks" in exp:
         dis = dis or (exp["stdout_lacks"] in p.stdout)
     if exp.get("is_error") is True:
